@@ -161,6 +161,78 @@ def check_collapse_gate_accessors(n, dm, targets, nshots, chooser):
     return None
 
 
+def check_channel_before_collapse(n, chq, cq, probs, nshots, chooser):
+    """state vectors: X-flip channels (PauliNoiseChannel [("X", p)]) on the qubits chq of |0..0>, then
+    H + collapsing M on cq, then terminal M(*chq).  Every shot samples every channel anew: row bit j of
+    shot s is 1 iff THAT shot's draw for channel j chose the X branch (index 0); the sampler is called
+    len(chq) + 2 times per shot."""
+    be = OracleBackend(chooser)
+    c = Circuit(n)
+    for q, p in zip(chq, probs):
+        c.add(gates.PauliNoiseChannel(q, [("X", p)]))
+    c.add(gates.H(cq))
+    mc = c.add(gates.M(cq, collapse=True))
+    c.add(gates.M(*chq))
+    res = be.execute_circuit(c, nshots=nshots)
+    per = len(chq) + 2
+    if len(be.calls) != nshots * per:
+        return "%d sampler calls for %d shots; every shot draws %d times (one per channel, the collapsing measurement, the terminal sample)" % (len(be.calls), nshots, per)
+    rows = np.asarray(res.samples()).tolist()
+    want = [[1 if be.calls[s * per + j][0] == 0 else 0 for j in range(len(chq))] for s in range(nshots)]
+    if rows != want:
+        return "reported rows %r; the channel draws of the shots give %r" % (rows, want)
+    rec = [int(np.asarray(r).reshape(-1)[0]) for r in mc.samples()]
+    if rec != [be.calls[s * per + len(chq)][0] for s in range(nshots)]:
+        return "recorded collapse outcomes %r are not the shots' draws" % (rec,)
+    return None
+
+
+def check_add_special(n, items, how):
+    """Circuit.add with FusedGate / CallbackGate entries.  items: ("M", targets) | ("G", qubits) |
+    ("F", [member qubit lists]) = the FusedGate(s) obtained by fusing H / CNOT members | ("CB",).
+    SPEC: a measurement stays terminal iff no later gate (FusedGates count like their members,
+    callbacks act on no qubit) touches one of its qubits."""
+    from qibo import callbacks
+
+    c = Circuit(n)
+    ms, touched = [], []
+    for it in items:
+        if it[0] == "M":
+            ms.append((len(touched), c.add(gates.M(*it[1])), list(it[1])))
+            c_gate = None
+            touched.append(set())
+        elif it[0] == "G":
+            c.add(gates.H(it[1][0]) if len(it[1]) == 1 else gates.CNOT(*it[1]))
+            touched.append(set(it[1]))
+        elif it[0] == "CB":
+            c.add(gates.CallbackGate(callbacks.Norm()))
+            touched.append(set())
+        else:
+            other = Circuit(n)
+            for qs in it[1]:
+                other.add(gates.H(qs[0]) if len(qs) == 1 else gates.CNOT(*qs))
+            fused = other.fuse(max_qubits=2)
+            if how == "plus":
+                c = c + fused
+            else:
+                for g in fused.queue:
+                    c.add(g)
+            touched.append({q for qs in it[1] for q in qs})
+    mgates = [g for g in c.queue if isinstance(g, gates.M)]
+    exp_terminal = []
+    for (pos, _, ts), g in zip(ms, mgates):
+        later = set().union(*touched[pos + 1:]) if touched[pos + 1:] else set()
+        term = not (set(ts) & later)
+        exp_terminal.append(term)
+        if bool(g.collapse) != (not term):
+            return "M%r followed by gates on %r has collapse=%r" % (tuple(ts), sorted(later), g.collapse)
+    got = [tuple(m.target_qubits) for m in c.measurements]
+    want = [tuple(ts) for (pos, _, ts), t in zip(ms, exp_terminal) if t]
+    if got != want or bool(c.has_collapse) != (not all(exp_terminal)):
+        return "circuit.measurements = %r, has_collapse = %r; expected terminal measurements %r" % (got, c.has_collapse, want)
+    return None
+
+
 def check_load_registers(n, items, dm, via, nshots, seed):
     """items: ("M", targets, name-or-None, collapse) | ("H", q).  Execute, then reload the result
     (via 'dict': from_dict(to_dict()), 'file': dump + load_result); registers must be the same."""
@@ -304,6 +376,66 @@ def run_suites(ctx):
             py = header_src() + f"why = check_collapse_gate_accessors({n}, {dm}, {targets!r}, {nshots}, Tape({log!r}))\nassert why is None, why\n"
             report(ctx, cnt, "handles:collapse-gate:decimal", f"collapsing M{tuple(targets)} (n={n}, dm={dm}, nshots={nshots}): {why}", py, why, "C03_search_handles_collapse_gate")
     ctx.ob("C03_search_handles_collapse_gate", cnt.get("C03_search_handles_collapse_gate", 0) == 0, "search", "")
+    # --- sampled channels before a collapsing measurement (state vectors) -------------------------
+    b19 = 0
+    for _ in range(30 if ctx.thorough else 12):
+        n = rng.randint(2, 4)
+        qs = rng.sample(range(n), rng.randint(2, n))
+        cq, chq = qs[0], qs[1:]
+        probs = [rng.choice([0.25, 0.5, 0.75]) for _ in chq]
+        nshots = rng.randint(2, 5)
+        log = []
+
+        sup = base.support_chooser(rng)
+
+        def chooser(p_, n_, log=log, sup=sup):
+            o_ = sup(p_, n_)
+            log.append(o_)
+            return o_
+
+        ctx.case(("channel_before_collapse", n, tuple(chq), cq, nshots))
+        ctx.stat("channel_before_collapse")
+        try:
+            why = N["check_channel_before_collapse"](n, chq, cq, probs, nshots, chooser)
+        except Exception as e:  # noqa
+            why = f"{type(e).__name__}: {e}"
+        if why:
+            b19 += 1
+            py = header_src() + f"why = check_channel_before_collapse({n}, {chq!r}, {cq}, {probs!r}, {nshots}, Tape({log!r}))\nassert why is None, why\n"
+            ctx.fail("repeated-execution:channel-before-collapse", f"{n} qubits, X-flip channels on {chq}, collapsing M({cq}), terminal M{tuple(chq)}, nshots={nshots}: {why}", py, observed=why,
+                     broken=["C03_search_channel_before_collapse"])
+    ctx.ob("C03_search_channel_before_collapse", b19 == 0, "search", f"{b19} failing inputs" if b19 else "")
+    # --- Circuit.add with FusedGate / CallbackGate entries ------------------------------------------
+    b20 = 0
+    for _ in range(120 if ctx.thorough else 40):
+        n = rng.randint(2, 4)
+        items = []
+        for _ in range(rng.randint(2, 6)):
+            r = rng.random()
+            if r < 0.35:
+                free = [q for q in range(n) if not any(it[0] == "M" and q in it[1] for it in items)]
+                if free:
+                    items.append(("M", rng.sample(free, rng.randint(1, min(2, len(free))))))
+            elif r < 0.5:
+                items.append(("G", rng.sample(range(n), rng.randint(1, 2))))
+            elif r < 0.65:
+                items.append(("CB",))
+            else:
+                items.append(("F", [rng.sample(range(n), rng.randint(1, 2)) for _ in range(rng.randint(1, 3))]))
+        if not any(it[0] == "M" for it in items):
+            items.insert(0, ("M", [rng.randrange(n)]))
+        how = rng.choice(["add", "plus"])
+        ctx.case(("add_special", n, str(items), how))
+        ctx.stat("add_special_" + how)
+        try:
+            why = N["check_add_special"](n, items, how)
+        except Exception as e:  # noqa
+            why = f"{type(e).__name__}: {e}"
+        if why:
+            b20 += 1
+            py = header_src() + f"why = check_add_special({n}, {items!r}, {how!r})\nassert why is None, why\n"
+            ctx.fail("circuit-add:special-gates", f"Circuit.add sequence {items} ({how}): {why}", py, observed=why, broken=["C03_search_add_special_gates"])
+    ctx.ob("C03_search_add_special_gates", b20 == 0, "search", f"{b20} failing inputs" if b20 else "")
     # --- reloading results ----------------------------------------------------------------------
     state0 = np.random.get_state()
     try:
